@@ -574,9 +574,17 @@ pub fn check_c02(h: &Hist) -> POut {
             per_key.entry(w.key).or_default().push(w);
         }
         let collide = matches!(h.plan.cfg.keys, KeyMode::Collide { .. });
+        // a successful wait() of the writing client is a barrier too (C10): between two writes of
+        // a key that only this client writes it separates them just like a quiescent point
+        let no_clear = !h.ops.iter().any(|o| matches!(o.op, Op::Clear | Op::Close));
+        let waited_between = |client: usize, lo: u64, hi: u64| -> bool {
+            no_clear && h.ops.iter().any(|o| o.client == client && matches!(o.op, Op::Wait) && matches!(o.res, Some(Res::Unit)) && o.inv_seq > lo && o.ret_seq_or_max() < hi)
+        };
+        let writer_of = |w: &Write| h.ops.iter().find(|o| o.val.map(|v| v.id) == Some(w.val.id)).map(|o| o.client);
         for (k, ws) in per_key.iter_mut() {
             ws.sort_by_key(|w| w.inv);
-            let separated = ws.windows(2).all(|p| p[0].ret != u64::MAX && h.quiescent_between(p[0].ret, p[1].inv).is_some());
+            let single_writer = ws.iter().map(|w| writer_of(w)).collect::<BTreeSet<_>>().len() == 1 && !h.ops.iter().any(|o| matches!(o.op, Op::Remove { .. }) && o.op.key() == Some(*k) && Some(o.client) != ws.first().and_then(|w| writer_of(w)));
+            let separated = ws.windows(2).all(|p| p[0].ret != u64::MAX && (h.quiescent_between(p[0].ret, p[1].inv).is_some() || (single_writer && writer_of(p[0]).map_or(false, |c| waited_between(c, p[0].ret, p[1].inv)))));
             if !separated || collide {
                 continue;
             }
@@ -587,7 +595,7 @@ pub fn check_c02(h: &Hist) -> POut {
                 if ws.iter().any(|w| w.inv < g.ret_seq.unwrap() && w.ret > g.inv_seq) {
                     continue;
                 }
-                if h.quiescent_between(last.ret, g.inv_seq).is_none() {
+                if h.quiescent_between(last.ret, g.inv_seq).is_none() && !(single_writer && writer_of(last) == Some(g.client) && waited_between(g.client, last.ret, g.inv_seq)) {
                     continue;
                 }
                 let seen: Option<Val> = match &g.res {
